@@ -10,9 +10,9 @@ use std::sync::Mutex;
 use e5_harness::*;
 use hydro_lang::live_collections::stream::{ExactlyOnce, NoOrder, TotalOrder};
 use hydro_lang::prelude::*;
-use hydro_lang::sim::compiled::CompiledSim;
 use hydro_lang::sim::{SimReceiver, SimSender};
 
+#[cfg(stageleft_runtime)]
 pub const META: PropMeta = PropMeta {
     id: "C37",
     quick_runs: 200_000,
@@ -31,9 +31,12 @@ pub const META: PropMeta = PropMeta {
     required_probes: &["e2e_exhaustive_ran", "reference_multi_tick_outcome"],
 };
 
+#[cfg(stageleft_runtime)]
 type Tx<T, O> = SimSender<T, O, ExactlyOnce>;
+#[cfg(stageleft_runtime)]
 type Rx<T> = SimReceiver<T, TotalOrder, ExactlyOnce>;
 
+#[cfg(stageleft_runtime)]
 #[derive(Clone, Copy, Debug, PartialEq, Eq)]
 enum Prog {
     Total,
@@ -43,6 +46,7 @@ enum Prog {
     TwoTicks,
     ObsTick,
 }
+#[cfg(stageleft_runtime)]
 impl Prog {
     const ALL: [Prog; 6] = [Prog::Total, Prog::NoOrd, Prog::Keyed, Prog::BatchSnap, Prog::TwoTicks, Prog::ObsTick];
     fn name(self) -> &'static str {
@@ -57,14 +61,17 @@ impl Prog {
     }
 }
 
+#[cfg(stageleft_runtime)]
 /// Canonical outcome: a list of records, each a list of integers (program specific encoding).
 type Outcome = Vec<Vec<i64>>;
 
+#[cfg(stageleft_runtime)]
 struct Enumerated {
     set: BTreeSet<Outcome>,
     executions: usize,
 }
 
+#[cfg(stageleft_runtime)]
 fn enumerate(p: Prog) -> Enumerated {
     let set = Mutex::new(BTreeSet::<Outcome>::new());
     let sref = &set;
@@ -178,6 +185,7 @@ fn enumerate(p: Prog) -> Enumerated {
 // ---------------------------------------------------------------------------------------------
 // Reference models (independent of the simulator)
 
+#[cfg(stageleft_runtime)]
 fn composition(r: &mut SplitMix64, items: &[i64]) -> Vec<Vec<i64>> {
     // any split of the sequence into non-empty consecutive batches
     let mut out = vec![];
@@ -191,6 +199,7 @@ fn composition(r: &mut SplitMix64, items: &[i64]) -> Vec<Vec<i64>> {
     out
 }
 
+#[cfg(stageleft_runtime)]
 fn shuffle(r: &mut SplitMix64, v: &mut [i64]) {
     for i in (1..v.len()).rev() {
         let j = below(r, i as u64 + 1) as usize;
@@ -198,6 +207,7 @@ fn shuffle(r: &mut SplitMix64, v: &mut [i64]) {
     }
 }
 
+#[cfg(stageleft_runtime)]
 fn reference(p: Prog, run_seed: u64) -> Outcome {
     let mut r = knob_rng(run_seed);
     match p {
@@ -310,6 +320,7 @@ fn reference(p: Prog, run_seed: u64) -> Outcome {
     }
 }
 
+#[cfg(stageleft_runtime)]
 #[test]
 fn e2e_c37() {
     let Some(cfg) = cfg_for("C37") else { return };
@@ -354,5 +365,4 @@ fn e2e_c37() {
         })
         .collect();
     drive(&cfg, &META, scenarios, None);
-    let _ = CompiledSim::exhaustive; // (documentation anchor)
 }
